@@ -1,1 +1,54 @@
+(* C15_Props.v — the property theorems of C15 and nothing else.
+   Each is closed by `exact <lemma>` and followed by Print Assumptions. *)
 From V Require Import C15_Spec C15_Proofs.
+Open Scope N_scope.
+
+(* ---- L1: transparency.  Whatever state the tracer is in (any conn value, reachable or not), whatever
+   bytes arrive and whatever the HPACK decoders say, the caller of Read/Write/Close gets exactly the inner
+   conn's bytes, count and error. *)
+Theorem transparent : forall dec_r dec_w c o c' r,
+  conn_op dec_r dec_w c o = Some (c', r) -> transparent_res o r.
+Proof. exact transparent_op_proof. Qed.
+Print Assumptions transparent.
+
+Theorem transparent_run : forall dec_r dec_w ops c c' rs,
+  conn_run dec_r dec_w c ops = Some (c', rs) -> Forall2 transparent_res ops rs.
+Proof. exact transparent_run_proof. Qed.
+Print Assumptions transparent_run.
+
+(* a broken tracer neither interferes nor moves *)
+Theorem broken_conn_transparent : forall dec_r dec_w c data e c' r,
+  f_broken (c_rd c) = true -> conn_op dec_r dec_w c (ORead data e) = Some (c', r) ->
+  r = RRead data e /\ c_rd c' = c_rd c.
+Proof. exact broken_conn_transparent_proof. Qed.
+Print Assumptions broken_conn_transparent.
+
+(* ---- L2: chunking independence.  For ALL byte streams, ALL partitions into chunks and ANY HPACK decoder:
+   feeding the chunks one by one leaves the frame tracer in the same state and emits the same decoded frames,
+   in the same order, as one trace() call on the concatenation. *)
+Theorem chunking_independent : forall dec isreq chunks,
+  ft_feed dec (ft_init isreq) chunks = ft_trace dec (ft_init isreq) (concat chunks).
+Proof. exact chunking_independent_proof. Qed.
+Print Assumptions chunking_independent.
+
+Theorem frames_are_the_one_shot_parse : forall dec isreq chunks,
+  snd (ft_feed dec (ft_init isreq) chunks) = one_shot dec isreq (concat chunks).
+Proof. exact frames_are_the_one_shot_parse_proof. Qed.
+Print Assumptions frames_are_the_one_shot_parse.
+
+Theorem same_bytes_same_frames : forall dec isreq chunks chunks',
+  concat chunks = concat chunks' ->
+  ft_feed dec (ft_init isreq) chunks = ft_feed dec (ft_init isreq) chunks'.
+Proof. exact same_bytes_same_frames_proof. Qed.
+Print Assumptions same_bytes_same_frames.
+
+(* from any legal tracer state (mid-preface, mid-header, mid-payload, inside a header block) *)
+Theorem chunking_independent_from : forall dec chunks st,
+  wf st -> ft_feed dec st chunks = ft_trace dec st (concat chunks).
+Proof. exact ft_feed_concat. Qed.
+Print Assumptions chunking_independent_from.
+
+Theorem broken_absorbing : forall dec st chunks,
+  f_broken st = true -> ft_feed dec st chunks = (st, []).
+Proof. exact broken_absorbing_proof. Qed.
+Print Assumptions broken_absorbing.
